@@ -43,7 +43,7 @@ let () =
         print_endline (match r with
           | LOk _ -> "END ok"
           | LScan (ScanErr (_, code, _)) -> if int_of_nat code >= 100 then "END ParserError" else "END ScannerError"
-          | LScan (Crash _) -> "END Crash" | LScan _ -> "END ScanOther"
+          | LScan (Crash IndexError) -> "END IndexError" | LScan (Crash ValueError) -> "END ValueError" | LScan (Crash OverflowError) -> "END OverflowError" | LScan _ -> "END ScanOther"
           | LComposer _ -> "END ComposerError" | LConstructor _ -> "END ConstructorError"
           | LCrash XIndexError -> "END IndexError" | LCrash XKeyError -> "END KeyError" | LCrash XValueError -> "END ValueError"
           | LCrash XTypeError -> "END TypeError" | LCrash XAttributeError -> "END AttributeError" | LCrash XOverflowError -> "END OverflowError"
